@@ -115,7 +115,8 @@ theorem resubscribe_keeps_record (w : World) (k : Nat) (hb : NoDupTopics w.broke
     (The side condition on `.exited` is needed: after Disconnect an accepted CONNACK with a lost
     session no longer re-subscribes — see `replay_fails_after_exit`, `replay_fails_after_exit_dialGate`.
     It is only needed for an exit after Disconnect: when the loop exited because the context given
-    to Connect was cancelled (`stopped = false`), (*) holds — see `cancelGate_replay`.) -/
+    to Connect was cancelled (`stopped = false`), (*) holds — see `cancelGate_replay`, and
+    `deafPending_replay` for the exit after the late transport of a dialer that ignores its context.) -/
 theorem replay_invariant (s : Script) (hst : (exec s).stuck = false)
     (hex : (exec s).phase = .exited → (exec s).stopped = false)
     (hr : Task.resubscribe ∉ (exec s).taskQ) :
@@ -620,7 +621,8 @@ example : netEffect (subCallsOf (exec cancelGate).accepted) [97] = some 1 ∧
     netEffect (subCallsOf (exec cancelGate).accepted) [98] = some 0 := by decide
 
 /-- cancellation while backing off after a failed dial, and before Connect is called: the loop exits,
-    one DialContext call, no connection; later `.waitElapsed` / `.dialOk` are ignored -/
+    one DialContext call, no connection; later `.waitElapsed` / `.dialOk` are ignored (default
+    configuration: the dialer honours its context; for one that does not see `deafIdle`) -/
 def cancelBackoff : Script := { evs := [.start, .dialFail, .cancelCtx, .waitElapsed, .dialOk 0] }
 
 def cancelIdle : Script := { evs := [.cancelCtx, .start, .dialOk 0] }
@@ -631,6 +633,135 @@ example : (exec cancelBackoff).phase = .exited ∧ (exec cancelBackoff).dials = 
 
 example : (exec cancelIdle).phase = .exited ∧ (exec cancelIdle).dials = 1 ∧
     (exec cancelIdle).conns.length = 0 ∧ (exec cancelIdle).connectErr = true := by decide
+
+/-! ### a dialer that ignores its context (`cfg.deafDialer`, e.g. `NoContextDialer`)
+
+  Every theorem above is stated and proved for ALL configurations, `deafDialer = true` included: none of
+  them needed a new hypothesis. With such a dialer a dial in flight survives the cancellation of the
+  context given to Connect; its result is acted upon afterwards (`.dialOk`: a connection that gets CONNECT
+  and is closed at once; `.dialFail`: no back-off); in both cases the loop exits with `stopped = false`. -/
+
+/-- until the first accepted CONNACK nothing has reached the broker's table — in particular not over the
+    transport a context-ignoring dialer delivers after the cancellation (CONNECT is written on it, no
+    SUBSCRIBE is) -/
+theorem broker_untouched_before_first_connack (s : Script) (h : (exec s).initialized = false) :
+    (exec s).broker.subs = [] :=
+  ((exec_all s).2.1 h).1
+
+/-- the late transport, for any world: one more connection, dead from the start, the client points at it,
+    the loop has exited; `stopped`, `initialized`, `connectReturned` and the accepted requests are unchanged -/
+theorem late_transport (w : World) (i : Nat) (hph : w.phase = .dialGate)
+    (hc : w.ctxCancelled = true) (hn : w.connectReturned.isNone = true) :
+    (step w (.dialOk i)).phase = .exited ∧
+    (step w (.dialOk i)).conns.length = w.conns.length + 1 ∧
+    (getConn (step w (.dialOk i)) w.conns.length).alive = false ∧
+    (step w (.dialOk i)).cli = some w.conns.length ∧
+    (step w (.dialOk i)).stopped = w.stopped ∧ (step w (.dialOk i)).ctxCancelled = true ∧
+    (step w (.dialOk i)).connectReturned = w.connectReturned ∧
+    (step w (.dialOk i)).initialized = w.initialized ∧
+    (step w (.dialOk i)).accepted = w.accepted :=
+  step_dialOk_late w i hph hc hn
+
+/-- the configuration is never changed by a run -/
+theorem cfg_constant (s : Script) : (exec s).cfg = s.cfg := exec_cfg s
+
+/-- with a dialer that honours its context the guard of the two late-transport branches of `step`
+    (`.dialOk` / `.dialFail` in `.dialGate` with `ctxCancelled ∧ connectReturned = none`) is false in every
+    reachable world: for `deafDialer = false` the step function is the former one on every run -/
+theorem late_transport_needs_deaf_dialer (s : Script) (hd : s.cfg.deafDialer = false) :
+    ¬ ((exec s).phase = .dialGate ∧ (exec s).ctxCancelled = true ∧
+        (exec s).connectReturned.isNone = true) := by
+  intro ⟨h1, h2, h3⟩
+  cases ((exec_ctxInv s hd) h3).2 h2 with
+  | inl h => rw [h1] at h; cases h
+  | inr h => rw [h1] at h; cases h
+
+/-- … more generally, for such a dialer: once the context is cancelled before Connect has returned, the loop
+    is not running (Connect not called yet, or exited), and it never reaches `.up` before Connect returns -/
+theorem cancelled_loop_not_running (s : Script) (hd : s.cfg.deafDialer = false)
+    (hn : (exec s).connectReturned.isNone = true) :
+    (∀ k, (exec s).phase ≠ .up k) ∧
+    ((exec s).ctxCancelled = true → (exec s).phase = .idle ∨ (exec s).phase = .exited) :=
+  exec_ctxInv s hd hn
+
+/-- cancellation during the first dial, then the transport arrives: a connection that carries only CONNECT
+    and is dead, the loop exited without Disconnect, Connect returned the context's error, one DialContext
+    call, no back-off wait, nothing at the broker -/
+def deafOk : Script := { cfg := { deafDialer := true }, evs := [.start, .cancelCtx, .dialOk 0] }
+
+def deafOkPre : Script := { deafOk with evs := deafOk.evs.take 2 }
+
+theorem deafOk_facts :
+    (exec deafOkPre).phase = .dialGate ∧ (exec deafOkPre).ctxCancelled = true ∧
+    (exec deafOkPre).connectErr = true ∧ (exec deafOkPre).conns.length = 0 ∧
+    (exec deafOk).phase = .exited ∧ (exec deafOk).stopped = false ∧ (exec deafOk).ctxCancelled = true ∧
+    (exec deafOk).connectErr = true ∧ (exec deafOk).connectReturned = none ∧
+    (exec deafOk).initialized = false ∧ (exec deafOk).conns.length = 1 ∧ (exec deafOk).cli = some 0 ∧
+    (getConn (exec deafOk) 0).pkts = [(.connect, .sent .ok)] ∧ (getConn (exec deafOk) 0).alive = false ∧
+    (getConn (exec deafOk) 0).connected = false ∧
+    (exec deafOk).dials = 1 ∧ (exec deafOk).waits = [] ∧ (exec deafOk).broker.subs = [] := by decide
+
+example : NoDisconnect deafOk := by unfold NoDisconnect; decide
+
+/-- … then the dial fails: no connection, the loop exits at once (no back-off wait is requested) -/
+def deafFail : Script := { cfg := { deafDialer := true }, evs := [.start, .cancelCtx, .dialFail] }
+
+theorem deafFail_facts :
+    (exec deafFail).phase = .exited ∧ (exec deafFail).stopped = false ∧
+    (exec deafFail).ctxCancelled = true ∧ (exec deafFail).connectErr = true ∧
+    (exec deafFail).connectReturned = none ∧ (exec deafFail).conns.length = 0 ∧
+    (exec deafFail).cli = none ∧ (exec deafFail).dials = 1 ∧ (exec deafFail).waits = [] ∧
+    (exec deafFail).waitExp = 0 := by decide
+
+/-- the same two scripts with a dialer that honours its context: the loop exits at the cancellation,
+    the late `.dialOk` / `.dialFail` is ignored, there is never a connection -/
+example : (exec { deafOk with cfg := {} }).phase = .exited ∧
+    (exec { deafOk with cfg := {} }).conns.length = 0 ∧ (exec { deafOk with cfg := {} }).cli = none ∧
+    (exec { deafOk with cfg := {} }).connectErr = true ∧
+    (exec { deafOkPre with cfg := {} }).phase = .exited ∧
+    (exec { deafFail with cfg := {} }).phase = .exited ∧
+    (exec { deafFail with cfg := {} }).waits = [] := by decide
+
+/-- Connect called with a context that is already done: the deaf dialer dials all the same -/
+def deafIdle : Script := { cfg := { deafDialer := true }, evs := [.cancelCtx, .start, .dialOk 0] }
+
+example : (exec { deafIdle with evs := deafIdle.evs.take 2 }).phase = .dialGate ∧
+    (exec { deafIdle with evs := deafIdle.evs.take 2 }).connectErr = true ∧
+    (exec deafIdle).phase = .exited ∧ (exec deafIdle).dials = 1 ∧ (exec deafIdle).conns.length = 1 ∧
+    (getConn (exec deafIdle) 0).alive = false ∧
+    (getConn (exec deafIdle) 0).pkts = [(.connect, .sent .ok)] := by decide
+
+/-- Subscribe / Unsubscribe calls before, during and after the cancelled dial: the task goroutine starts
+    on the late transport, every call fails on the dead connection or is queued behind the failed one;
+    nothing reaches the broker; later events (`.connackOk`, `.waitElapsed`, `.dialOk`) are ignored -/
+def deafPending : Script :=
+  { cfg := { deafDialer := true },
+    evs := [.start, .app (.sub [⟨[97], 1⟩]), .cancelCtx, .app (.sub [⟨[98], 0⟩]), .dialOk 0,
+            .app (.unsub [[97]]), .connackOk false [], .waitElapsed, .dialOk 3] }
+
+theorem deafPending_facts :
+    (exec deafPending).phase = .exited ∧ (exec deafPending).stopped = false ∧
+    (exec deafPending).stuck = false ∧ (exec deafPending).taskQ = [] ∧
+    (exec deafPending).retryQ = [.reSub [⟨[97], 1⟩], .qSub [⟨[98], 0⟩], .qUnsub [[97]]] ∧
+    (exec deafPending).subEst = [⟨[98], 0⟩] ∧ (exec deafPending).broker.subs = [] ∧
+    (exec deafPending).conns.length = 1 ∧ (exec deafPending).dials = 1 ∧
+    (getConn (exec deafPending) 0).pkts =
+      [(.connect, .sent .ok), (.subscribe 1 [⟨[97], 1⟩], .dead)] ∧
+    (exec deafPending).rejected = 0 := by decide
+
+/-- (*) holds there: `replay_invariant` applies to the exit of a deaf dialer's late transport as well -/
+theorem deafPending_replay :
+    netEffect (subCallsOf (exec deafPending).accepted) =
+      (subCallsOf (queuedReqs (exec deafPending).taskQ)).foldl netStep
+        ((pendingCalls (exec deafPending).retryQ).foldl netStep (toMap (exec deafPending).broker.subs)) :=
+  replay_invariant deafPending (by decide) (fun _ => by decide) (by decide)
+
+example : netEffect (subCallsOf (exec deafPending).accepted) [97] = none ∧
+    netEffect (subCallsOf (exec deafPending).accepted) [98] = some 0 := by decide
+
+/-- `late_transport_needs_deaf_dialer` is sharp: with a deaf dialer the guard is reachable -/
+example : (exec deafOkPre).phase = .dialGate ∧ (exec deafOkPre).ctxCancelled = true ∧
+    (exec deafOkPre).connectReturned.isNone = true := by decide
 
 /-! ### non-vacuity: concrete runs (filters as byte lists: a = [97], b = [98], c = [99]) -/
 
